@@ -39,12 +39,18 @@ def c16_extra(prop,tier,seed,repo,reg,known):
 def c10_extra(prop,tier,seed,repo,reg,known):
   from zoo.run import run_tc
   return run_tc(repo,seed,tier)
+def c12_extra(prop,tier,seed,repo,reg,known):
+  from zoo.run import run_tr
+  return run_tr('C12',repo,seed,tier)
+def c13_extra(prop,tier,seed,repo,reg,known):
+  from zoo.run import run_tr
+  return run_tr('C13',repo,seed,tier)
 def rtl_extra(prop,tier,seed,repo,reg,known):
   from .rtl_run import run_specs
   return run_specs([sp for sp in rtl_specs() if prop in sp.prop_ids],tier,repo)
 
 
-FIX_COMMITS=['052e08e','9c79cb1','dce12fb','1afafb3','61a0063','7632b61','95f312b','22cc801','ef02dce','8ef5b7c']
+FIX_COMMITS=['052e08e','9c79cb1','dce12fb','1afafb3','61a0063','7632b61','95f312b','22cc801','ef02dce','8ef5b7c','87ae370']
 
 PROPERTIES={
  'C04': dict(level='proof',
@@ -131,4 +137,14 @@ PROPERTIES={
    note="The checker's visitor methods are not under discharged contracts; the whole-program induction (static width == runtime width for every sub-expression) is not machine-checked; struct fields, indices and L3+ features are not in the probe family. The method copy BehavioralRTLIRTypeCheckVisitorL1._get_nbits_from_value is checked through the probes only. Labelled bounded.",
    explanation="literal-width function proved; acceptance/rejection verdicts compared with simulation on an enumerated family of blocks",
    extra=['contracts:c10_extra'], require_cover=False, assumptions=["blocks use no explicit width-changing cast and no shifts (as the statement excludes them)"]),
+ 'C12': dict(level='other', bounded_only=True,
+   claim="Bounded stand-in only, flat-port-map clause only: on a design with struct-typed ports (nested struct, two-dimensional lists, list inside a nested struct) in both directions and a 2x3 port array, the Yosys translation connects every flattened leaf port to exactly the bit range that the packed value (real to_bits, under contract in C06) gives that leaf, and every array element to its flattened port.",
+   note="Behavioural equivalence of the emitted Verilog and the single-driver clause are NOT covered (no Verilog semantics here; same reason as C03). Observed while building the check (not claimed, not checked): output struct ports get two continuous assignments per leaf. Labelled bounded.",
+   explanation="executable statement of the flat-port-map clause on one enumerated design",
+   extra=['contracts:c12_extra'], require_cover=False, assumptions=[]),
+ 'C13': dict(level='other', bounded_only=True,
+   claim="Bounded stand-in only: module names of instances of parametrised components (partially overridden defaults, a negative parameter) are legal identifiers and coincide only for equal class and full construct arguments; SystemVerilog and Yosys translations of three designs in fresh processes under five PYTHONHASHSEED values are byte-identical up to comment lines; each module is defined once and every instantiated module is defined.",
+   note="'bodies identical' is approximated by 'same class and same construct arguments'; get_component_unique_name is not under a discharged contract (string theory not attempted). Labelled bounded.",
+   explanation="executable statement of the property on enumerated designs and hash seeds",
+   extra=['contracts:c13_extra'], require_cover=False, assumptions=[]),
 }
